@@ -6,6 +6,8 @@ Lean compares the assignees / targets with the model's eligibility filters and a
 only with a dual certificate (potentials computed here by an independent Hungarian method)."""
 from __future__ import annotations
 
+from . import framework as fw  # noqa: E402
+
 import logging
 import random
 from typing import Any, Dict, List, Tuple
@@ -199,5 +201,5 @@ def worker(args) -> Dict[str, Any]:
             if o.get("mon"):
                 findings.append({"id": r["id"], "kind": "mon", "text": o["mon"][:8], "record": r})
     s = recs[0]
-    return {"n": len(recs), "steps": problems, "rows": pairs, "findings": findings[:20], "n_findings": len(findings), "shapes": sorted(shapes, key=str),
+    return {"n": len(recs), "steps": problems, "rows": pairs, "findings": fw.pick(findings, 20), "n_findings": len(findings), "shapes": sorted(shapes, key=str),
             "sample": {"meta": s["meta"], "calls": s["calls"][:2]}}
